@@ -24,4 +24,10 @@ PROPS = {
         'correspondence': 'canonical rendering (NewCNAME, RCode, RRType, dynamic type tag and fields of Value) of the implementation result vs the model result; the harness also evaluates the published shape predicate on the implementation result and parses twice (determinism)',
         'assumptions': ['values with bytes >= 0x80 or IPv6 zones are outside the modelled fragment (counted as unsupported; only the Go-side shape predicate applies to them)'],
     },
+    'C07': {
+        'harness': 'c07',
+        'rule': 'pools of 110-160 distinct valid rules (feature grammar over exception, important, $domain incl. restricted-only, content types, third-party/match-case, $dnstype, $ctag incl. negated-only, $client incl. negated-only, $denyallow, badfilter, dnsrewrite, document-level modifiers; plus general grammar rules and add-one-modifier variants): IsHigherPriority on ALL ordered pairs of each pool (exhaustive per pool), the harness additionally checks irreflexivity, asymmetry, transitivity and transitivity of ties on all triples of the implementation relation; candidate lists of 1-7 rules through GetDNSBasicRule and NewMatchingResult(..).GetBasicResult; non-trivial = every pairs case, select cases with >= 2 candidates',
+        'correspondence': 'full pair matrix of IsHigherPriority vs is_higher_priority of the model on rules parsed by the model from the same texts; texts of the selected rules',
+        'assumptions': [],
+    },
 }
